@@ -28,7 +28,7 @@ CLAIMS = {
         design='4/C01'),
 
     'C02': dict(
-        technique='Coq refinement: every write program is an exact map update of the abstraction stored : key->bytes (all inputs) + verified trace monitor + random histories vs dict',
+        technique='Coq refinement theorem: any history of operation programs equals the fold of map updates on the abstraction stored : key->bytes (all inputs, all histories) + verified trace monitor + random histories vs dict',
         text=('PROOF (Coq, closed): abstraction Store.stored; C02_views_are_the_map (library read path = abstraction under the invariant); per operation, '
               'program-level and for ALL inputs: C02_add_loose_is_put + C02_add_loose_changes_nothing_else, C02_add_to_pack_is_put_all and '
               'C02_import_is_put_all (every key that is not the key of a handed-over object reads back exactly as before, present or absent; the '
@@ -38,9 +38,10 @@ CLAIMS = {
               'C02_reads_are_content_addressed. TIE: Store.apply_ev replayed over the intercepted trace of 27 fixed and 7+ generated operation variants '
               'must end in exactly the folder read raw, the programs reproduce those traces, the verified monitor accepts every event boundary; 180+ '
               'random histories over 14 operation kinds and all option combinations are compared with a dict after EVERY step '
-              '(has/get/bulk/uneven bulk streams/meta/list/count/NotExistent, raw reader, validate). PARTIAL: the per-operation theorems are not '
-              'composed into one theorem over arbitrary operation sequences (each starts from any world satisfying the invariant and ends in one, so '
-              'they chain, but the chaining is not a stated theorem); loosen_object and pack roll-over inside one call are decided by the histories.'),
+              '(has/get/bulk/uneven bulk streams/meta/list/count/NotExistent, raw reader, validate). COMPOSED: C02_any_history_is_a_map (History.history_refines) - ANY finite '
+              'sequence of add / pack / direct-to-pack / import / delete / clean programs, each run from the world the previous one left, ends in a world '
+              'satisfying the invariant in which EVERY key reads back exactly what the fold of the map updates holds. PARTIAL: repack, loosen_object and '
+              'pack roll-over inside one call are not operations of that theorem (repack: C11 theorems; the rest: histories).'),
         design='4/C02'),
     'C03': dict(
         technique='Coq: invariant + sound boolean checker + verified trace monitor run on implementation traces; independent raw reader',
